@@ -134,6 +134,8 @@ inductive WBody
   /-- urlencoded from a map (`Values.Encode`: sorted by key at print time) -/
   | form (m : Multi)
   | ordered (kvs : List (Str × Str))
+  /-- ordered pairs followed by the urlencoded map (since /repo 00dbc9a both are sent) -/
+  | orderedForm (kvs : List (Str × Str)) (m : Multi)
   | multipart (fields : List (Str × Str)) (files : List FilePart)
 deriving DecidableEq, Repr
 
@@ -173,24 +175,26 @@ def filePart (v : Variant) (c : ClientCfg) (f : FileUp) : FilePart :=
   let content := fileContent v f.src
   ⟨f.param, f.name, if f.ctype = [] then c.detect (sniffBuf content) else f.ctype, content⟩
 
-/-- The fields `writeMultiPart` emits: the form map if non-empty, else the ordered pairs. -/
+/-- The fields `writeMultiPart` emits: the ordered pairs, then the form map (since /repo
+00dbc9a; before, the ordered pairs were dropped when the map was non-empty). -/
 def multipartFields (st : ReqState) : List (Str × Str) :=
-  if nonEmpty st.form then st.form.flatMap fun e => e.2.map fun v => (e.1, v)
-  else st.ordered
+  st.ordered ++ st.form.flatMap fun e => e.2.map fun v => (e.1, v)
 
 /-- parseRequestBody. -/
 def parseBody (v : Variant) (c : ClientCfg) (ra : Nat) (st : ReqState) : ReqState × WBody :=
   if payloadForbid c st.method then ({ st with body := .none }, .none)
-  else if st.multipart then
-    ({ st with headers := put st.headers c.ctKey [c.boundaryCT],
-               files := st.files.map fun f => { f with src := f.src.consume } },
-     .multipart (multipartFields st) (st.files.map (filePart v c)))
   else
+    -- client-level form data is merged first (once), also for multipart requests (/repo c422765)
     let form := if nonEmpty c.form && (!v.formOnce || ra == 0) then addAll st.form c.form else st.form
     let st := { st with form := form }
-    if nonEmpty form then ({ st with headers := put st.headers c.ctKey [c.formCT] }, .form form)
+    if st.multipart then
+      ({ st with headers := put st.headers c.ctKey [c.boundaryCT],
+                 files := st.files.map fun f => { f with src := f.src.consume } },
+       .multipart (multipartFields st) (st.files.map (filePart v c)))
     else if !st.ordered.isEmpty then
-      ({ st with headers := put st.headers c.ctKey [c.formCT] }, .ordered st.ordered)
+      ({ st with headers := put st.headers c.ctKey [c.formCT] },
+       if nonEmpty form then .orderedForm st.ordered form else .ordered st.ordered)
+    else if nonEmpty form then ({ st with headers := put st.headers c.ctKey [c.formCT] }, .form form)
     else
       match st.body with
       | .none => (st, .none)
